@@ -24,7 +24,7 @@ type c07 struct{}
 func (c07) ID() string    { return "C07" }
 func (c07) Level() string { return "exploration" }
 func (c07) Rule() string {
-	return "every template of T ::= (lit|$$|$N|${N}|${N op T})* up to an AST-node bound (alphabet shrinking with size) x every environment of the variable-state lattice, plus every string over {$ { } : - + ? A _ 1 space} up to a length bound x 3 environments; each compared with a reference evaluator written from the statement. A case is non-trivial when it contains a substitution; distinct = distinct (template-shape-free) outcome signature: kind of outcome + value"
+	return "every template of T ::= (lit|$$|$N|${N}|${N op T})* up to an AST-node bound (alphabet shrinking with size) x every environment of the variable-state lattice, plus every string over {$ { } : - + ? A _ 1 space} up to a length bound x 3 environments; each compared with a reference evaluator written from the statement; the templates of up to 3 nodes also through SubstituteWith and SubstituteWithOptions. A case is non-trivial when it contains a substitution; distinct = distinct (template-shape-free) outcome signature: kind of outcome + value"
 }
 func (c07) Assumptions() []string {
 	return []string{
@@ -109,11 +109,23 @@ func c07envs(states []string) []c07env {
 }
 
 // c07check compares the implementation with the reference on one template.
-func c07check(t string, e c07env, strictValue bool) core.Outcome {
+func c07check(t string, e c07env, strictValue bool) core.Outcome { return c07checkVia(t, e, strictValue, 0) }
+
+// c07entries: the public substitution functions, all held to the same reference (default pattern, default operators).
+var c07entries = []string{"Substitute", "SubstituteWith", "SubstituteWithOptions"}
+
+func c07checkVia(t string, e c07env, strictValue bool, entry int) core.Outcome {
 	var got string
 	var gerr error
 	perr := core.Try(func() error {
-		got, gerr = template.Substitute(t, e.lookup)
+		switch entry {
+		case 1:
+			got, gerr = template.SubstituteWith(t, e.lookup, template.DefaultPattern)
+		case 2:
+			got, gerr = template.SubstituteWithOptions(t, e.lookup)
+		default:
+			got, gerr = template.Substitute(t, e.lookup)
+		}
 		return nil
 	})
 	sample := map[string]any{"template": t, "env": e.m}
@@ -223,6 +235,13 @@ func (c07) Run(c *core.Ctx) {
 					id := fmt.Sprintf("g/%s/%d/%d/%d", st.tag, n, ti, ei)
 					e := e
 					c.Do(id, func() core.Outcome { return c07check(t, e, true) })
+					if n <= 3 && st.tag == "f" {
+						// the other public entry points on the templates of up to 3 nodes
+						for en := 1; en < len(c07entries); en++ {
+							en := en
+							c.Do(id+"/via-"+c07entries[en], func() core.Outcome { return c07checkVia(t, e, true, en) })
+						}
+					}
 				}
 				ti++
 			})
